@@ -1,4 +1,5 @@
 import QuinnModel.Lemmas.Timers
+import QuinnModel.Recovery.Pacing
 /-
 C20 — The protocol core is deterministic and driven only by its inputs.   (property theorems only; PARTIAL)
 A Lean model is a function of its inputs, so determinism of the MODEL is vacuous; what is proved here are the
@@ -48,7 +49,34 @@ theorem timeout_settles (l : Life.L) (now : Nat) :
     (∀ t, (Life.step l (.timeout now)).idleTimer = some t → now < t) :=
   Life.timeout_settles l now
 
+/-- the pacer never asks to be called again at the instant it was called: a wake-up it returns lies strictly
+    in the future, for every RTT, token deficit and window (so the Pacing timer cannot re-arm at `now`) -/
+theorem pacing_wakeup_strictly_future (now rtt deficit window t : Nat)
+    (h : Pacing.tail now rtt deficit window = some t) : now < t := by
+  unfold Pacing.tail at h
+  simp only at h
+  split at h
+  · simp at h
+  · rename_i hd
+    simp only [Option.some.injEq] at h
+    omega
+
+/-- … and it is translation equivariant in `now` -/
+theorem pacing_shift_equivariant (d now rtt deficit window : Nat) :
+    Pacing.tail (now + d) rtt deficit window = (Pacing.tail now rtt deficit window).map (· + d) := by
+  unfold Pacing.tail
+  simp only
+  split
+  · simp
+  · simp only [Option.map_some, Option.some.injEq]; omega
+
+/-- what the repair (fix ecb8a58) removed: before it, a small RTT made the pacer return `now` itself — with
+    smoothed RTT 45.2 µs, one missing token and a window of 12000 bytes the delay rounds to 0 ns -/
+theorem pacing_old_tail_could_return_now : Pacing.tailOld 5046188 45200 1 12000 = some 5046188 := by decide
+
 -- non-vacuity
+example : Pacing.tail 1000 1000000 600 12000 = some 41000 := by decide
+example : Pacing.tail 5046188 45200 1 12000 = none := by decide
 example : Timers.nextTimeout (Timers.set (Timers.set Timers.empty 1 500) 2 300) = some 300 := by decide
 example : Timers.expired (Timers.set (Timers.set Timers.empty 1 500) 2 300) 400 = [2] := by decide
 example : Life.run (Life.shiftL 7 Life.init) ([.established, .authed 5 100, .close 10 30, .timeout 40].map (Life.shiftEv 7))
